@@ -26,7 +26,13 @@ type C20Case struct {
 	FaultGen    int        `json:"fault_generation"`
 	Observer    bool       `json:"observer"`
 	PreSized    bool       `json:"trials_presized"`
-	ExtraSlots  int        `json:"trials_extra_slots,omitempty"` // pre-sized record longer than the configured number of trials (an experiment value used before with more runs)
+	// Prior: the same experiment value was run once before (same configuration): every trial of that earlier run is solved
+	// in generation PriorSolvedAt (-1: never), and it is aborted by an evaluator error in (PriorFaultTrial, 0) when that is
+	// >= 0 - a caller retrying after a failure. The run under check must behave as on a fresh experiment value.
+	Prior           bool `json:"run_once_before,omitempty"`
+	PriorSolvedAt   int  `json:"prior_solved_at,omitempty"`
+	PriorFaultTrial int  `json:"prior_fault_trial,omitempty"`
+	ExtraSlots      int  `json:"trials_extra_slots,omitempty"` // pre-sized record longer than the configured number of trials (an experiment value used before with more runs)
 	Parallel    bool       `json:"parallel_executor"`
 	PopSize     int        `json:"pop_size"`
 	Seed        int64      `json:"seed"`
@@ -38,6 +44,11 @@ func GenC20() *rapid.Generator[C20Case] {
 		c := C20Case{Genome: gg.Draw(t, "genome"), Trials: rapid.IntRange(1, 5).Draw(t, "trials"), Generations: rapid.IntRange(1, 8).Draw(t, "generations"),
 			Observer: rapid.IntRange(0, 3).Draw(t, "observer") != 0, PreSized: rapid.Bool().Draw(t, "presized"), Parallel: rapid.IntRange(0, 3).Draw(t, "parallel") == 0,
 			PopSize: rapid.IntRange(3, 8).Draw(t, "pop size"), Seed: int64(rapid.IntRange(0, 1<<30).Draw(t, "seed"))}
+		if rapid.IntRange(0, 3).Draw(t, "run before") == 0 {
+			c.Prior = true
+			c.PriorSolvedAt = rapid.IntRange(-1, c.Generations-1).Draw(t, "prior solved at")
+			c.PriorFaultTrial = rapid.IntRange(-1, c.Trials-1).Draw(t, "prior fault trial")
+		}
 		if c.PreSized && rapid.IntRange(0, 2).Draw(t, "longer record") == 0 {
 			c.ExtraSlots = rapid.IntRange(1, 2).Draw(t, "extra slots")
 		}
@@ -265,6 +276,22 @@ func CheckC20(c C20Case, rec *Rec) error {
 		observer = r
 	}
 	seedLibrary(c.Seed)
+	if c.Prior {
+		pc := c
+		pc.Fault, pc.Observer = "none", false
+		pc.SolvedAt = make([]int, c.Trials)
+		for i := range pc.SolvedAt {
+			pc.SolvedAt[i] = c.PriorSolvedAt
+		}
+		if c.PriorFaultTrial >= 0 {
+			pc.Fault, pc.ErrKind, pc.ErrLate, pc.FaultTrial, pc.FaultGen = "error", "plain", false, c.PriorFaultTrial, 0
+		}
+		pctx, pcancel := context.WithCancel(context.Background())
+		prior := &protoRecorder{c: pc, cancel: pcancel, pops: map[*genetics.Population]int{}}
+		_ = exp.Execute(neat.NewContext(pctx, opts), c.Genome.Build(), prior, nil)
+		pcancel()
+		rec.Class("the experiment value was run once before")
+	}
 	err := exp.Execute(ctx, c.Genome.Build(), r, observer)
 
 	want, complete := expectedTrace(c)
